@@ -5,6 +5,7 @@ C.7 Mathematical Formulas (p187)
 
 from plasTeX.Base.LaTeX.Arrays import Array
 from plasTeX import Command, Environment, sourceChildren, NoCharSubEnvironment
+from plasTeX.Base.TeX.Primitives import BoxCommand
 from plasTeX import DimenCommand, GlueCommand, TeXFragment
 from typing import Optional
 
@@ -690,7 +691,9 @@ class boldmath(Command):
 class unboldmath(Command):
     pass
 
-class text(Command):
+class text(BoxCommand):
+    # A box: a $ inside the argument starts a nested formula instead of
+    # closing the enclosing one
     args = 'self'
 
 # Math Style
